@@ -15,6 +15,7 @@
 """Helps nanoemoji build svg fonts."""
 
 import dataclasses
+import math
 from io import BytesIO
 from itertools import groupby
 from fontTools import ttLib
@@ -348,8 +349,9 @@ def _map_gradient_coordinates(
             c0=affine.map_point(paint.c0),
             c1=affine.map_point(paint.c1),
             # radii are lengths: a mirroring affine (negative x scale) must not negate them
-            r0=abs(affine.map_vector((paint.r0, 0)).x),
-            r1=abs(affine.map_vector((paint.r1, 0)).x),
+            # and a rotating one must not shrink them to their x component
+            r0=math.hypot(*affine.map_vector((paint.r0, 0))),
+            r1=math.hypot(*affine.map_vector((paint.r1, 0))),
         )
     raise TypeError(type(paint))
 
